@@ -573,9 +573,9 @@ def double_acquire(ck, i):
 def acquire_in_a_busy_turn(ck, i):
     """ONE loop turn finds a datagram whose handling raises (or is simply served) on an IKE socket AND a kernel ACQUIRE on the netlink socket: the ACQUIRE
     is negotiated, in this turn or the next (what the turn did not read is still waiting in its socket)."""
-    kinds = ['ike-sa-init-from-an-unconfigured-address', 'five-octets', 'garbage-with-a-header', 'authentic-dpd-probe', 'two-acquires']
+    kinds = ['ike-sa-init-from-an-unconfigured-address', 'five-octets', 'garbage-with-a-header', 'authentic-dpd-probe', 'two-acquires', 'acceptable-ike-sa-init-request-from-the-peer-itself']
     kind = kinds[i % len(kinds)]
-    established = (i // len(kinds)) % 2 == 1
+    established = (i // len(kinds)) % 2 == 1 or kind == 'acceptable-ike-sa-init-request-from-the-peer-itself'      # (without an IKE_SA the half-open one of that request is legitimately the one to queue on: see DESIGN section 3, observation O1)
     sim, a, b = S.make_pair(ck.seed * 73 + i, dpd=600, lifetime=3600)
     sim.case = {'family': 'acquire-in-a-busy-turn', 'datagram': kind, 'ike_sa_exists': established}
     if established or kind == 'authentic-dpd-probe':
@@ -590,6 +590,11 @@ def acquire_in_a_busy_turn(ck, i):
     udps, evs = [], [acq]
     if kind == 'ike-sa-init-from-an-unconfigured-address':
         udps = [('198.51.100.77', S.A4, codec.encode_clear(dict(gen.typical_messages(rng)['ike_sa_init'], spi_r=bytes(8))))]
+    elif kind == 'acceptable-ike-sa-init-request-from-the-peer-itself':
+        # (a second initiator behind the peer's address, or a stray copy: it leaves a half-open sibling next to the established IKE_SA, which still serves the ACQUIRE)
+        from vf.ref import party as party_
+        trs_ = [{'type': 1, 'id': 12, 'keylen': 256}, {'type': 3, 'id': 12, 'keylen': None}, {'type': 2, 'id': 5, 'keylen': None}, {'type': 4, 'id': 19, 'keylen': None}]
+        udps = [(S.B4, S.A4, party_.RefParty(S.B4, S.A4, rng).init_request(trs_, 19))]
     elif kind == 'five-octets':
         udps = [(S.B4, S.A4, b'\x01\x02\x03\x04\x05')]
     elif kind == 'garbage-with-a-header':
@@ -800,7 +805,7 @@ def run(ck):
     for i in range(24 if not thorough else 480):
         if ck.mine(i + 6):
             shared_entries(ck, i)
-    for i in range(30 if not thorough else 300):
+    for i in range(36 if not thorough else 360):
         if ck.mine(i + 5):
             acquire_in_a_busy_turn(ck, i)
     for i in range(48 if not thorough else 480):
